@@ -8,7 +8,10 @@ rc=0
 targets=$(python3 - <<'PY'
 import glob, importlib.util, os
 seen = []
+ready = set(open("checks/READY").read().split()) if os.path.exists("checks/READY") else None
 for p in sorted(glob.glob("checks/C*.py")):
+    if ready is not None and os.path.basename(p)[:-3] not in ready:
+        continue
     spec = importlib.util.spec_from_file_location("m", p); m = importlib.util.module_from_spec(spec); spec.loader.exec_module(m)
     for t in [getattr(m, "PROPS", None), getattr(m, "DRIVER", None)] + list(getattr(m, "EXTRA_LAKE_TARGETS", [])):
         if t and t not in seen:
@@ -17,9 +20,12 @@ print(" ".join(seen))
 PY
 )
 crates=$(python3 - <<'PY'
-import glob, importlib.util
+import glob, importlib.util, os
 seen = {}
+ready = set(open("checks/READY").read().split()) if os.path.exists("checks/READY") else None
 for p in sorted(glob.glob("checks/C*.py")):
+    if ready is not None and os.path.basename(p)[:-3] not in ready:
+        continue
     spec = importlib.util.spec_from_file_location("m", p); m = importlib.util.module_from_spec(spec); spec.loader.exec_module(m)
     c = getattr(m, "CRATE", None)
     if c:
